@@ -65,7 +65,8 @@ M = [
     ('interval-numpy-int-as-nanoseconds', 'streamz/core.py', "        interval = interval.item()\n", "        import pandas as pd\n        interval = pd.Timedelta(interval).total_seconds()\n", ['C13']),
     ('kafka-default-reset-on-callers-dict', 'streamz/sources.py', "            self.consumer_params['auto.offset.reset'] = 'latest'", "            consumer_params['auto.offset.reset'] = 'latest'", ['C09']),
     ('kafka-new-partitions-ignore-committed', 'streamz/sources.py', "                        self.positions.extend(tp.offset for tp in committed)", "                        self.positions.extend(-1001 for tp in committed)", ['C09']),
-    ('connect-does-not-inform-upstream-side', 'streamz/core.py', "        for known, other in ((self, downstream), (downstream, self)):", "        for known, other in ((self, downstream),):", ['C19']),
+    ('connect-does-not-inform-upstream-side', 'streamz/core.py', "        for node in (self, downstream):\n            if loops:", "        for node in (downstream,):\n            if loops:", ['C19']),
+    ('connect-checks-end-nodes-only', 'streamz/core.py', "        loops, modes = self._pipeline_knowledge()\n        for loop in downstream._pipeline_knowledge(modes)[0]:", "        loops = [self.loop] if self.loop is not None else []\n        modes = set(bool(n.asynchronous) for n in (self, downstream) if n.asynchronous is not None)\n        for loop in ([downstream.loop] if downstream.loop is not None else []):", ['C19']),
     ('gather-no-wait-downstream', 'streamz/dask.py', "        result2 = yield self._emit(result, metadata=metadata)", "        result2 = self._emit(result, metadata=metadata)", ['C20']),
 ]
 
